@@ -356,3 +356,74 @@ func TestNumericTypesConvertAndFloatObserver(t *testing.T) {
 		}
 	}
 }
+
+type axPVal struct{ N int }
+
+func (p axPVal) Get() int { return p.N }
+func (p *axPVal) Ptr() int { return 1 }
+
+// IsNil panics exactly for the kinds that cannot be nil; converting a func value to another func type keeps kind and
+// nil-ness and the converted value has the target type; Type.MethodByName on the element type tells value-receiver
+// methods (which panic when called through a nil pointer) from pointer-receiver ones; a nil value of an interface type
+// whose static type implements an interface holds nothing.
+func TestIsNilKindsFuncConversionAndMethodSets(t *testing.T) {
+	type named func(int) int
+	vals := []interface{}{1, "s", 1.5, true, []int(nil), map[string]int(nil), (*int)(nil), (func())(nil), (chan int)(nil), struct{}{}, [1]int{}}
+	for _, x := range vals {
+		v := reflect.ValueOf(x)
+		k := v.Kind()
+		nilable := (k >= reflect.Chan && k <= reflect.Slice) || k == reflect.UnsafePointer
+		panicked := func() (p bool) {
+			defer func() { p = recover() != nil }()
+			v.IsNil()
+			return
+		}()
+		if panicked == nilable {
+			t.Errorf("IsNil on kind %v: panicked=%v", k, panicked)
+		}
+	}
+	f := func(i int) int { return i }
+	for _, fv := range []reflect.Value{reflect.ValueOf(f), reflect.ValueOf((func(int) int)(nil))} {
+		tt := reflect.TypeOf(named(nil))
+		if !fv.Type().ConvertibleTo(tt) {
+			t.Fatal("func types with identical underlying type must convert")
+		}
+		c := fv.Convert(tt)
+		if c.Kind() != reflect.Func || c.IsNil() != fv.IsNil() || c.Type() != tt {
+			t.Errorf("Convert: kind %v nil %v type %v", c.Kind(), c.IsNil(), c.Type())
+		}
+		if _, ok := c.Interface().(named); !ok {
+			t.Errorf("a value whose type is the named func type asserts to it")
+		}
+	}
+	var np *axPVal
+	pv := reflect.ValueOf(np)
+	if _, onValue := pv.Type().Elem().MethodByName("Get"); !onValue {
+		t.Errorf("Get is declared on the value type")
+	}
+	if _, onValue := pv.Type().Elem().MethodByName("Ptr"); onValue {
+		t.Errorf("Ptr is not in the value type's method set")
+	}
+	if !pv.MethodByName("Get").IsValid() || !pv.MethodByName("Ptr").IsValid() {
+		t.Errorf("both methods are found on the pointer")
+	}
+	func() {
+		defer func() {
+			if recover() == nil {
+				t.Errorf("calling a value method through a nil pointer panics")
+			}
+		}()
+		pv.MethodByName("Get").Call(nil)
+	}()
+	if r := pv.MethodByName("Ptr").Call(nil); r[0].Int() != 1 {
+		t.Errorf("pointer-receiver methods can be called on a nil pointer")
+	}
+	type holder struct{ S fmt.Stringer }
+	fld := reflect.ValueOf(holder{}).Field(0)
+	if !fld.Type().Implements(reflect.TypeOf((*fmt.Stringer)(nil)).Elem()) || fld.Kind() != reflect.Interface || !fld.IsNil() {
+		t.Fatalf("unexpected shape of a nil interface field")
+	}
+	if _, ok := fld.Interface().(fmt.Stringer); ok {
+		t.Errorf("a nil interface value implements nothing")
+	}
+}
